@@ -230,10 +230,18 @@ Record hnd := mkhnd {
   hmemory : hmem;        (* sparse memory *)
   rderr : bool;          (* public_read_mem reports not_authorized *)
   cpreq : bool;          (* control_point_notification_call_back() was called *)
-  datareq : bool         (* data_indication_call_back() was called *)
+  datareq : bool;        (* data_indication_call_back() was called *)
+  flashing : N           (* start_flash() calls not yet answered by end_flash() *)
 }.
-Definition hinit : hnd := mkhnd [] false false false.
-Definition set_hmem (h : hnd) (m : hmem) : hnd := mkhnd m (rderr h) (cpreq h) (datareq h).
+Definition hinit : hnd := mkhnd [] false false false 0.
+Definition set_hmem (h : hnd) (m : hmem) : hnd := mkhnd m (rderr h) (cpreq h) (datareq h) (flashing h).
+Definition set_cpreq (h : hnd) (x : bool) : hnd := mkhnd (hmemory h) (rderr h) x (datareq h) (flashing h).
+Definition set_datareq (h : hnd) (x : bool) : hnd := mkhnd (hmemory h) (rderr h) (cpreq h) x (flashing h).
+Definition set_flashing (h : hnd) (x : N) : hnd := mkhnd (hmemory h) (rderr h) (cpreq h) (datareq h) x.
+Definition count_sf (cl : list call) : N :=
+  N.of_nat (length (filter (fun x => match x with CSf _ _ => true | _ => false end) cl)).
+(* every start_flash() call starts one flash operation of the handler *)
+Definition started (h : hnd) (cl : list call) : hnd := set_flashing h (flashing h + count_sf cl).
 
 (* find_next_buffer -> (error code, controller, calls); None = assert in set_start_address *)
 Definition find_next (c : cfg) (o : oracle) (k : ctl) (h : hnd) (a : N) : option (N * ctl * list call) :=
@@ -352,7 +360,7 @@ Definition write_cp (c : cfg) (o : oracle) (k : ctl) (h : hnd) (v : list N)
             let k := set_flashm (set_csum (set_end_a (set_start_a (set_errc k 0) s) e) r) false in
             if (e <? s) || negb (acceptable (regions c) s e) then Some (e_invalid_offset, false, request_error k, h, [CCs s r])
             else if negb (s =? e) then
-              Some (0, false, k, mkhnd (hmemory h) (rderr h) (cpreq h) true, [CCs s r; CDicb])
+              Some (0, false, k, set_datareq h true, [CCs s r; CDicb])
             else Some (0, true, k, h, [CCs s r])
         | _, _ => None
         end
@@ -385,14 +393,14 @@ Definition read_data (c : cfg) (o : oracle) (k : ctl) (h : hnd) (read_size : nat
     let n := N.min (N.of_nat read_size) (amod c (end_a k + aspace c - start_a k)) in
     if rderr h then
       (* error != success: out_size = 0, notify the control point *)
-      ([], set_errc k 1, mkhnd (hmemory h) (rderr h) true (datareq h), [CPr (start_a k) n true; CCpcb])
+      ([], set_errc k 1, set_cpreq h true, [CPr (start_a k) n true; CCpcb])
     else
       let d := read_range c o (hmemory h) (start_a k) (N.to_nat n) in
       let r := o_crc_upd o d (csum k) mod two32 in
       let k1 := set_start_a (set_csum (set_errc k 0) r) (amod c (start_a k + n)) in
       if start_a k1 =? end_a k1
-      then (d, k1, mkhnd (hmemory h) (rderr h) true (datareq h), [CPr (start_a k) n false; CCk d (csum k) r; CCpcb])
-      else (d, k1, mkhnd (hmemory h) (rderr h) (cpreq h) true, [CPr (start_a k) n false; CCk d (csum k) r; CDicb])
+      then (d, k1, set_cpreq h true, [CPr (start_a k) n false; CCk d (csum k) r; CCpcb])
+      else (d, k1, set_datareq h true, [CPr (start_a k) n false; CCk d (csum k) r; CDicb])
   else (untouched read_size, k, h, []).                           (* out_size is not set *)
 
 (* bootloader_progress_data( read_size, ... ); None = assert( read_size >= 7 ) *)
@@ -439,7 +447,7 @@ Definition init : state := mk cinit hinit qinit.
 Inductive op :=
 | WCp (v : list N) | WCpCmd (v : list N)       (* Write Request / Write Command: control point *)
 | WData (v : list N) | WDataCmd (v : list N)   (* Write Request / Write Command: data *)
-| EndFlash                                     (* bootloader::end_flash( server ) *)
+| EndFlash                                     (* bootloader::end_flash( server ), if a flash operation is running *)
 | Run                                          (* application performs the requested call backs *)
 | Out                                          (* server::l2cap_output, 23 byte buffer *)
 | Hvc                                          (* Handle Value Confirmation *)
@@ -471,21 +479,24 @@ Definition step (c : cfg) (o : oracle) (s : state) (x : op) : state * out :=
       match write_cp c o (sc s) (sh s) v with
       | None => fault s
       | Some (code, ntf, k, h, cl) =>
-          (mk k h (if ntf then queue_cp (sq s) else sq s),
+          (mk k (started h cl) (if ntf then queue_cp (sq s) else sq s),
            mkout (match x with WCp _ => if code =? 0 then SOk else SErr code | _ => SNone end) cl)
       end
   | WData v | WDataCmd v =>
       match write_data_char c o (sc s) (sh s) v with
       | None => fault s
       | Some (code, k, h, cl) =>
-          (mk k h (sq s),
+          (mk k (started h cl) (sq s),
            mkout (match x with WData _ => if code =? 0 then SOk else SErr code | _ => SNone end) cl)
       end
-  | EndFlash => (mk (sc s) (sh s) (queue_prog (sq s)), mkout SNone [])
+  | EndFlash =>
+      (* the handler reports the end of a flash operation once per start_flash() call *)
+      if flashing (sh s) =? 0 then (s, mkout SNone [])
+      else (mk (sc s) (set_flashing (sh s) (flashing (sh s) - 1)) (queue_prog (sq s)), mkout SNone [])
   | Run =>
       let q1 := if cpreq (sh s) then queue_cp (sq s) else sq s in
       let q2 := if datareq (sh s) then queue_data q1 else q1 in
-      (mk (sc s) (mkhnd (hmemory (sh s)) (rderr (sh s)) false false) q2, mkout SNone [])
+      (mk (sc s) (set_datareq (set_cpreq (sh s) false) false) q2, mkout SNone [])
   | Out =>
       match dequeue (sq s) with
       | (None, _) => (s, mkout SNone [])
@@ -497,7 +508,7 @@ Definition step (c : cfg) (o : oracle) (s : state) (x : op) : state * out :=
           end
       end
   | Hvc => (mk (sc s) (sh s) (mkq (qcp (sq s)) (qdata (sq s)) (qprog (sq s)) (qnext (sq s)) false), mkout SNone [])
-  | SetErr e => (mk (sc s) (mkhnd (hmemory (sh s)) e (cpreq (sh s)) (datareq (sh s))) (sq s), mkout SNone [])
+  | SetErr e => (mk (sc s) (mkhnd (hmemory (sh s)) e (cpreq (sh s)) (datareq (sh s)) (flashing (sh s))) (sq s), mkout SNone [])
   | Rd ch =>
       match read_value c o s ch (att_mtu - 1) with
       | None => fault s
